@@ -488,6 +488,58 @@ package block
 // else drains it
 //@ recvonly txNotifyCh in lazyAggregationLoop, normalAggregationLoop property C17
 
+
+// ---- start-up (C04, C06, C08) --------------------------------------------------------------------
+
+// getInitialState: a store without state gets the genesis block at the initial height and the
+// returned state sits one below it; a store with state returns it (and refuses a genesis that
+// starts above it). Nothing else is written.
+//@ func getInitialState(ctx, genesis, signer, store, exec, logger, managerOpts) (s, err)
+//@   property C04 C06 C08
+//@   requires [wiring] store != nil && exec != nil && logger != nil
+//@   requires [genesis] genesis.InitialHeight >= 1
+//@   modifies durable store.has[genesis.InitialHeight], durable store.hdrAt[genesis.InitialHeight], durable store.hsigAt[genesis.InitialHeight],
+//@            durable store.signerAddrAt[genesis.InitialHeight], durable store.signerKeyAt[genesis.InitialHeight], durable store.txsAt[genesis.InitialHeight],
+//@            durable store.dataMetaAt[genesis.InitialHeight], durable store.sigAt[genesis.InitialHeight]
+//@   ensures [fresh-chain] err == nil && !old(store.hasState) && !store.faulty ==> s.LastBlockHeight == genesis.InitialHeight - 1 && s.InitialHeight == genesis.InitialHeight
+//@                       && store.has[genesis.InitialHeight] && store.hdrAt[genesis.InitialHeight].height == genesis.InitialHeight
+//@   ensures [restart] err == nil && old(store.hasState) && !store.faulty ==> StateOf(s) == store.stateAt && genesis.InitialHeight <= s.LastBlockHeight
+//@   ensures [state-untouched] store.hasState == old(store.hasState) && store.stateAt == old(store.stateAt) && store.height == old(store.height)
+
+// the configured payload provider reads the header, it does not change it (assumed)
+//@ func ManagerOptions.SignaturePayloadProvider(h) (bz, err)
+//@   ensures [payload] err == nil ==> val(bz) == Payload(HdrOf(h))
+
+// reading the cache files touches only the caches (assumed: gob and the file system are outside)
+//@ func (m *Manager) LoadCache() (err)
+//@   trusted
+//@   modifies m.headerCache.itemAt, m.headerCache.seen, m.headerCache.daInc, m.headerCache.daIncHas, m.dataCache.itemAt, m.dataCache.seen, m.dataCache.daInc, m.dataCache.daIncHas
+//@   ensures [any] true
+//@ func bytesToBatchData(data) (r, err)
+//@   trusted
+//@   ensures [any] true
+
+// NewManager: the recorded height is raised to the state's height (never the other way round), and
+// on a chain that starts now - no state, no submission watermarks - nothing counts as waiting for DA
+// submission, whatever the initial height is.
+//@ func NewManager(ctx, signer, config, genesis, store, exec, sequencer, da, logger, headerStore, dataStore, headerBroadcaster, dataBroadcaster, seqMetrics, gasPrice, gasMultiplier, managerOpts) (m, err)
+//@   property C04:height-is-state,height-never-lowered C06:nothing-pending-on-fresh-chain,watermarks-only-raised C08:nothing-pending-on-fresh-chain
+//@   requires [wiring] store != nil && exec != nil && logger != nil
+//@   requires [genesis] genesis.InitialHeight >= 1
+//@   requires [height-range] store.height < 18446744073709551615
+//@   modifies durable store.height, durable store.meta["last-submitted-header-height"], durable store.metaHas["last-submitted-header-height"],
+//@            durable store.meta["last-submitted-data-height"], durable store.metaHas["last-submitted-data-height"],
+//@            durable store.has[genesis.InitialHeight], durable store.hdrAt[genesis.InitialHeight], durable store.hsigAt[genesis.InitialHeight],
+//@            durable store.signerAddrAt[genesis.InitialHeight], durable store.signerKeyAt[genesis.InitialHeight], durable store.txsAt[genesis.InitialHeight],
+//@            durable store.dataMetaAt[genesis.InitialHeight], durable store.sigAt[genesis.InitialHeight]
+//@   ensures [height-is-state] err == nil && !store.faulty ==> m != nil && m.store == store && store.height >= m.lastState.LastBlockHeight
+//@   ensures [height-never-lowered] store.height >= old(store.height)
+//@   ensures [nothing-pending-on-fresh-chain] err == nil && !store.faulty && !old(store.hasState) && old(store.height) < genesis.InitialHeight
+//@                       && !old(store.metaHas["last-submitted-header-height"]) && !old(store.metaHas["last-submitted-data-height"])
+//@                       ==> m.pendingHeaders != nil && m.pendingData != nil && NumPending(m.pendingHeaders.base) == 0 && NumPending(m.pendingData.base) == 0
+//@   ensures [watermarks-only-raised] err == nil && old(store.metaHas["last-submitted-header-height"]) && !store.faulty
+//@                       ==> m.pendingHeaders.base.lastHeight >= le64dec(old(store.meta["last-submitted-header-height"]))
+
 // ---- C11: from the mempool to the sequencer ------------------------------------------------------
 
 // the seen-set is keyed by the hex of the transaction's sha256
